@@ -427,7 +427,13 @@ func vpH_C02_empty_items() {
 	}
 	var x Item
 	term := ""
-	switch vpChoice(11) {
+	switch vpChoice(14) {
+	case 11: // the list-typed members allocated but empty, next to members that are written
+		x, term = &Object{ID: "https://h.ex/i", Type: NoteType, Tag: ItemCollection{}, To: ItemCollection{IRI("https://h.ex/t")}, BCC: ItemCollection{}}, "tag"
+	case 12:
+		x, term = &OrderedCollection{ID: "https://h.ex/i", Type: OrderedCollectionType, OrderedItems: ItemCollection{}, CC: make(ItemCollection, 0, 4)}, "orderedItems"
+	case 13:
+		x, term = &Actor{ID: "https://h.ex/i", Type: PersonType, Streams: ItemCollection{}, To: ItemCollection{}, Inbox: IRI("https://h.ex/inbox")}, "streams"
 	case 8: // the list-typed members, holding just the one member that has nothing to say
 		x, term = &Actor{ID: "https://h.ex/i", Type: PersonType, Streams: ItemCollection{v}}, "streams"
 	case 9:
